@@ -1,10 +1,26 @@
 import Tahoe.Http.LemmasAuth
-/-! C30 — HTTP storage API authorization (property theorems; helper lemmas are in `Tahoe/Http/LemmasAuth.lean`).
+import Tahoe.Http.LemmasSpec
+/-! C30 — HTTP storage API authorization (property theorems; helper lemmas are in `Tahoe/Http/LemmasAuth.lean`
+and `Tahoe/Http/LemmasSpec.lean`).
 
 `step sw st rq` is one request against an `HTTPServer` whose swissnum is `sw`, in state `st` (finished
-immutable shares, uploads in progress, mutable shares, advisories).  The route table, the secret names and the
-fact that every route is wrapped by `_authorization_decorator` are generated from the live klein app; the
-first four theorems pin the documented values, so a changed route or secret requirement breaks a named theorem.
+immutable shares, uploads in progress, mutable shares, advisories); `run` folds it over a history.  The route
+table, the secret names and the fact that every route is wrapped by `_authorization_decorator` are generated from
+the live klein app; the first four theorems pin the documented values, so a changed route or secret requirement
+breaks a named theorem.  The model is per request: nothing but the state connects two requests (in particular no
+connection), which is itself the specification `authorization_is_pure` states.
+
+## Coverage of the statement (properties.jsonl C30)
+
+| clause | theorem(s) |
+|---|---|
+| "no request without the server's correct swissnum receives share data or changes any state" | `no_swissnum_no_effect` (every request, route, state: state unchanged, 401/400/404, no share byte, answer independent of the state), `swissnum_check_exact`; over histories `unauthorized_requests_are_noops` |
+| the decision depends on nothing but (route, headers) — not on the state, earlier requests or the connection | `authorization_is_pure`, `served_iff_authorized` (handler runs ⇔ `Authorized`: swissnum header first, every secret value well formed, kinds present = kinds required), `matched_route_is_generated`, `all_routes_wrapped_by_authorization`, `route_table_documented`, `route_table_modelled`, `secret_names_documented`.  That the real server keeps no per-connection memory is correspondence/monitor only (keep-alive sequences in harness/props/c30.py) |
+| "requests with missing or malformed secrets are rejected without side effects" | `bad_secrets_no_effect` (400 / 500, state unchanged), `accepted_secrets_well_formed`, `handler_receives_collected_secrets` (exactly which value sets are accepted and what the handler receives) |
+| "writes to or aborts of an in-progress upload require that upload's secret" | `upload_secret_required` (any state change by PATCH / PUT …/abort on an upload in progress ⇒ gate passed and presented secret = that upload's, whichever other uploads exist) |
+| "mutable writes require the write enabler" | `enabler_required` (any state change by read-test-write on a slot holding a share — existing, new or mixed share numbers — ⇒ presented enabler = every existing share's) |
+| quantifier "histories … interleaved with legitimate uploads by other clients" | `unauthorized_requests_are_noops` (final state and the answers to the authorized requests are those of the history without the unauthorized ones) |
+| TLS, certificate pin | not covered (out of scope, DESIGN) |
 -/
 namespace Tahoe.C30
 open Tahoe.Http Tahoe.Generated
@@ -177,7 +193,7 @@ theorem enabler_required (sw : Bytes) (st : State) (rq : Request) (m : Matched) 
   split at hh
   · rename_i a _
     by_cases hany : enablerMismatch st m.args.si (getS sec .writeEnabler) = true
-    · exfalso; apply hh; simp [hRtw, hany]
+    · exfalso; apply hh; simp [hRtw, ssRtw, hany]
     · apply Decidable.byContradiction
       intro hne
       apply hany
@@ -194,5 +210,71 @@ example : step [1] { muts := [(("aaaaaaaaaaaaaaaaaaaaaaaaaa", 0), ⟨[9], [1, 2,
       (("lease-cancel-secret ".toList.map Char.toNat) ++ List.replicate 43 65 ++ [61])].map (fun l => l.map UInt8.ofNat),
      .rtw ⟨[(0, ⟨[], [(0, [8])], none⟩)], []⟩⟩
     = ({ muts := [(("aaaaaaaaaaaaaaaaaaaaaaaaaa", 0), ⟨[9], [1, 2, 3], []⟩)] }, ⟨401, .empty⟩) := by decide
+
+/-! ### Authorization as a specification: a pure function of (route, headers) -/
+
+/-- **Served iff authorized.**  For every request and every route of the generated table it matches: the
+decorated handler runs (the gate hands it the secrets) if and only if the request is `Authorized` — the first
+`Authorization` value is the swissnum header, and the `X-Tahoe-Authorization` values are all well formed and
+carry exactly the kinds of secrets that route requires.  `Authorized` mentions neither the server state nor
+anything sent earlier on the connection. -/
+theorem served_iff_authorized (sw : Bytes) (rq : Request) (m : Matched)
+    (hm : matchRoute rq.method rq.path = some m) :
+    (∃ sec, gate sw rq = .pass m sec) ↔ Authorized sw m.required rq.auth rq.xauth :=
+  gate_pass_iff sw rq m hm
+
+/-- the route a request matches is an entry of the generated table (method allowed, endpoint known), and the
+secret kinds demanded of it are that entry's -/
+theorem matched_route_is_generated (method : String) (path : List String) (m : Matched)
+    (h : matchRoute method path = some m) :
+    ∃ e ∈ Http.routes, e.2.1.contains method = true ∧ Route.ofEndpoint e.1 = some m.route ∧
+      m.required = e.2.2.2.filterMap Secret.ofName :=
+  matchRoute_from_table method path m h
+
+/-- the secrets the handler receives are the well-formed values collected in order (a later value of a kind
+replaces an earlier one) -/
+theorem handler_receives_collected_secrets (vals : List (List Nat)) (required : List Secret) (d : SecretsDict) :
+    extractSecrets vals required = .ok d ↔
+      ∃ ps, vals.mapM parseOne = some ps ∧ d = collect [] ps ∧ ∀ k, k ∈ required ↔ ∃ p ∈ ps, p.1 = k :=
+  extractSecrets_ok_iff vals required d
+
+/-- **The decision is independent of the server state** (and therefore of every earlier request, on this or any
+other connection, since a history acts on a request only through the state): for any two states a request is
+either refused with the same answer and no change in both, or handled in both with the same matched route and
+the same secrets. -/
+theorem authorization_is_pure (sw : Bytes) (st st' : State) (rq : Request) :
+    (served sw rq = false ∧ (step sw st rq).1 = st ∧ (step sw st' rq).1 = st' ∧ (step sw st rq).2 = (step sw st' rq).2) ∨
+    (∃ m sec, gate sw rq = .pass m sec ∧ step sw st rq = handle st m sec rq.body ∧ step sw st' rq = handle st' m sec rq.body) := by
+  cases hs : served sw rq with
+  | false =>
+    exact .inl ⟨rfl, step_not_served sw st rq hs, step_not_served sw st' rq hs, step_not_served_response sw st st' rq hs⟩
+  | true =>
+    right
+    unfold served at hs
+    split at hs
+    · rename_i m sec hg
+      exact ⟨m, sec, hg, by simp [step, hg], by simp [step, hg]⟩
+    · cases hs
+
+/-- **Histories.**  In any history, the requests that are not authorized might as well not have been sent: the
+final state, and the answers to the authorized requests, are those of the history with them removed. -/
+theorem unauthorized_requests_are_noops (sw : Bytes) (st : State) (reqs : List Request) :
+    (run sw st reqs).1 = (run sw st (reqs.filter (served sw))).1 ∧
+    servedAnswers sw reqs (run sw st reqs).2 = (run sw st (reqs.filter (served sw))).2 :=
+  run_filter_served sw st reqs
+
+-- a bad request, the same bad request again (a keep-alive retry), then a good one: only the good one counts
+example :
+    let bad : Request := ⟨"GET", ["storage", "v1", "immutable", "aaaaaaaaaaaaaaaaaaaaaaaaaa", "0"], [authHeader [9]], [], .none⟩
+    let good : Request := ⟨"GET", ["storage", "v1", "immutable", "aaaaaaaaaaaaaaaaaaaaaaaaaa", "0"], [authHeader [1]], [], .none⟩
+    let st : State := { imm := [(("aaaaaaaaaaaaaaaaaaaaaaaaaa", 0), ⟨[7, 7], []⟩)] }
+    (run [1] st [bad, bad, good]).2.map (·.status) = [401, 401, 200] ∧
+    [bad, bad, good].map (served [1]) = [false, false, true] := by decide
+
+-- `Authorized` on a concrete request: write route, upload secret "ABC" present and well formed
+example : Authorized [1] [.upload] [authHeader [1]]
+    [[117, 112, 108, 111, 97, 100, 45, 115, 101, 99, 114, 101, 116, 32, 81, 85, 74, 68]] :=
+  ⟨rfl, by decide, [[117, 112, 108, 111, 97, 100, 45, 115, 101, 99, 114, 101, 116, 32, 81, 85, 74, 68]],
+   [(.upload, [65, 66, 67])], by decide, by rfl, by intro k; cases k <;> simp⟩
 
 end Tahoe.C30
